@@ -786,6 +786,47 @@ class Gen:
         return out
 
     # ---- phases
+    def ops_sleeper_overload(self, m):
+        """A supply of its own feeds a series element that sleeps in one phase;
+        the load below it is configured with a value for that phase which the
+        element could not carry if it were on (rs * i above the supply
+        voltage / far beyond what the supply side can deliver).  The steady
+        state of that phase is 'element off, load unpowered'.  Framed by two
+        plain observations: the second must solve if the first did."""
+        phs = list(m.sys_phases.keys())
+        if len(phs) < 2:
+            return []
+        R = self.r
+        off = R.pick(phs)
+        on = [p for p in phs if p != off]
+        vo = R.pick([3.3, 5.0, 12.0, 24.0]) * (-1.0 if R.chance(0.2) else 1.0)
+        src = mk("Source", self.fresh("S", m), {"vo": vo, "rs": 0.0}, None)
+        kind = R.wpick([("PSwitch", 3), ("Converter", 1), ("LinReg", 1)])
+        light = abs(vo) * 0.002
+        if kind == "PSwitch":
+            rs = R.pick([0.5, 2.0, 10.0])
+            sl = mk("PSwitch", self.fresh("SW", m), {"rs": rs, "iis": R.pick([0.0, 1e-6])}, None)
+            heavy = abs(vo) / rs * R.pick([1.0, 1.5, 10.0])
+            light = abs(vo) / rs * 0.02
+        elif kind == "Converter":
+            sl = mk("Converter", self.fresh("CV", m), {"vo": vo / 2.0, "eff": 0.9, "iis": R.pick([0.0, 1e-6])}, None)
+            heavy = 1e4
+        else:
+            sl = mk("LinReg", self.fresh("LR", m), {"vo": vo / 2.0, "vdrop": abs(vo) / 10.0, "iis": R.pick([0.0, 1e-6])}, None)
+            heavy = 1e4
+        load = mk("ILoad", self.fresh("IL", m), {"ii": light}, None)
+        conf = {p: light for p in on}
+        conf[off] = heavy
+        obs = {"op": "observe", "ta": 25.0, "sh": 1, "kw": {}}
+        obs2 = dict(obs, sleeper={"off": off, "sleeper": sl["name"], "load": load["name"], "src": src["name"], "limit": light * 1.0001})
+        return [obs,
+                {"op": "add_source", "comp": src, "group": "", "rail": ""},
+                {"op": "add_comp", "parent": src["name"], "comp": sl, "group": "", "rail": ""},
+                {"op": "add_comp", "parent": sl["name"], "comp": load, "group": "", "rail": ""},
+                {"op": "set_comp_phases", "name": sl["name"], "conf": on},
+                {"op": "set_comp_phases", "name": load["name"], "conf": conf},
+                obs2]
+
     def op_sys_phases(self, m, clear=False):
         if clear:
             return {"op": "set_sys_phases", "phases": {}}
